@@ -3,6 +3,7 @@ from ..core import Site, TERM, norm, origin_calls, origin_proj_names, last_seg, 
 from . import common as K
 from . import c01, c06, c13
 from .. import atomics
+from ..masks import const_eval_set
 
 EXPLANATION = (
     "Decides: (a) every function of Simulation / SimInit that spawns work onto the executor passes Simulation::run "
@@ -580,3 +581,78 @@ def rule_search_handover(ctx):
 
 RULES.append(("C04.r", "schedule_task hand-over conserves tasks (operand level)", rule_task_handover))
 RULES.append(("C04.s", "search stage: popped bucket and stolen task reach the worker's queues (operand level)", rule_search_handover))
+
+
+def rule_executor_identity(ctx):
+    """A woken task is queued on the executor it was spawned on: every executor takes a fresh identity from the global counter, tags
+    the tasks it spawns with it, and its scheduling function compares the tag of the task with the identity of the executor whose
+    worker performs the wake-up (a mismatch panics instead of letting another pool adopt the task - a task adopted by a foreign
+    pool runs outside its own executor's quiescence detection, active-task list and cancellation)."""
+    P = ctx.prog
+    n = 0
+    for mod in ("mt_executor", "st_executor"):
+        b = ctx.body("executor::%s::Executor::new" % mod)
+        cn = ctx.body("executor::%s::ExecutorContext::new" % mod)
+        if b is None or cn is None:
+            continue
+        news = list(b.calls(r"ExecutorContext::new$"))
+        ok = len(news) == 1
+        if ok:
+            o = b.origins(news[0].args()[0], news[0])
+            ok = len(o) == 1 and next(iter(o))[0] == "call" and next(iter(o))[2].endswith("Atomic::fetch_add")
+            if ok:
+                fa = Site(b, next(iter(o))[1], TERM)
+                ok = b.origins(fa.args()[0], fa) == frozenset([("static", "executor::NEXT_EXECUTOR_ID")]) and not b.in_loop(fa)
+                inc = const_eval_set(b.origins(fa.args()[1], fa))
+                ok = ok and inc == 1
+        ctx.ob("executor-identity|%s|fresh-id-from-global-counter" % mod, ok,
+               "the executor's identity is the value returned by NEXT_EXECUTOR_ID.fetch_add(1)", news)
+        aggs = [a for a in cn.aggregates() if (a.node["r"].get("adt") or "").endswith("ExecutorContext")]
+        ok = len(aggs) == 1
+        if ok:
+            fo = dict(zip(aggs[0].node["r"]["fields"], aggs[0].node["r"]["ops"]))
+            ok = "executor_id" in fo and cn.origins(fo["executor_id"], aggs[0]) == frozenset([("arg", 1)])
+        ctx.ob("executor-identity|%s|context-stores-id" % mod, ok, "ExecutorContext::new stores the identity it is given", aggs)
+        tags = []
+        for bb in P.all_bodies():
+            if not bb.name.startswith("executor::%s::" % mod) or "::tests" in bb.name:
+                continue
+            for s in bb.calls(r"^executor::task::(spawn|spawn_and_forget)$"):
+                o = bb.origins(s.args()[2], s)
+                good = bool(o) and all(origin_proj_names(x)[1][-1:] == [("f", "executor_id")] and origin_proj_names(x)[0] == ("arg", 1) for x in o)
+                tags.append(s)
+                ctx.ob("executor-identity|%s|spawn-tags-own-id|%s" % (mod, last_seg(bb.name)), good, "a spawned task is tagged with the spawning executor's identity", [s])
+        ctx.ob("floor|executor-identity|%s|spawn-sites" % mod, len(tags) >= 2, "expected >= 2 spawn sites per executor (found %d)" % len(tags))
+        st = ctx.body("executor::%s::schedule_task" % mod)
+        if st is not None:
+            found = False
+            sites = []
+            for x in P.family(st):
+                for blk in sorted(x.live_blocks):
+                    if x.blocks[blk]["term"]["t"] != "switch" or len(x.succ[blk]) < 2:
+                        continue
+                    c = Cond(x, blk, x.succ[blk][0])
+                    if c.kind != "cmp" or c.data[0] not in ("==", "!="):
+                        continue
+                    sides = []
+                    for side in (c.data[1], c.data[2]):
+                        r = set()
+                        for o in side:
+                            y = P.resolve_env(x, o)
+                            if isinstance(y, tuple) and y and y[0] == "captured":
+                                y = y[1]
+                            r.add(y)
+                        sides.append(r)
+                    tag = [i for i, sd in enumerate(sides) if sd == {("arg", 2)}]
+                    own = [i for i, sd in enumerate(sides) if sd and all(origin_proj_names(y)[1][-1:] == [("f", "executor_id")] for y in sd)]
+                    if tag and own and tag[0] != own[0]:
+                        # the mismatch edge diverges (panic)
+                        found = True
+                        sites.append(c.site)
+            ctx.ob("executor-identity|%s|wake-compares-tag-with-own-id" % mod, found,
+                   "schedule_task compares the task's executor tag with the identity of the executor performing the wake-up", sites or [st.loc()])
+            n += 1
+    ctx.ob("floor|executor-identity", n == 2, "both executors are analysed (found %d)" % n)
+
+
+RULES.append(("C04.t", "a woken task is queued on the executor it was spawned on (unique executor identities, tagged tasks, tag compared at wake-up)", rule_executor_identity))
